@@ -80,6 +80,14 @@ func buildActorDir(c *core.Ctx, a *c16Actor, dir string, helper string) error {
 	if err != nil {
 		return err
 	}
+	// two stray links for the first step, signed by keys the layout does not authorize: every
+	// verification has several links of one step to reject
+	{
+		fast := gen.Fast(Pool(c))
+		for _, k := range []gen.KeyPair{fast[(a.id+5)%len(fast)], fast[(a.id+6)%len(fast)]} {
+			gen.WriteLink(ch.LinkDir, gen.NewLink(ch.Layout.Steps[0].Name, nil, gen.Artifacts(map[string]string{"stray": "x"})), k.Priv, a.id%2 == 0)
+		}
+	}
 	// the inspection of every actor has a unique name (RunInspections drops <name>.link into the shared cwd)
 	ch.Layout.Inspect[0].Name = fmt.Sprintf("insp-w%d-g%d", c.Shard, a.id)
 	ch.Layout.Expires = "2099-01-01T00:00:00Z" // identical in both copies of the data
@@ -207,11 +215,26 @@ func runOps(c *core.Ctx, a *c16Actor, dir string, rounds int, census bool) []opR
 			if err := mb.Dump(p); err != nil {
 				return errClassOf(err)
 			}
-			md, err := intoto.LoadMetadata(p)
-			if err != nil {
-				return errClassOf(err)
+			// the file is written again several times (same base name in every goroutine's own directory)
+			res := ""
+			for rewrite := 0; rewrite < 4; rewrite++ {
+				l := mb.Signed.(intoto.Link)
+				l.Command = []string{fmt.Sprintf("rewrite-%d-by-g%d", rewrite, a.id)}
+				mb.Signed = l
+				mb.Signatures = nil
+				if err := mb.Sign(a.key.Priv); err != nil {
+					return errClassOf(err)
+				}
+				if err := mb.Dump(p); err != nil {
+					return res + errClassOf(err)
+				}
+				md, err := intoto.LoadMetadata(p)
+				if err != nil {
+					return res + errClassOf(err)
+				}
+				res += errClassOf(md.VerifySignature(a.key.Pub)) + "/" + errClassOf(md.VerifySignature(a.other.Pub)) + "/" + normJSON(md.GetPayload()) + ";"
 			}
-			return errClassOf(md.VerifySignature(a.key.Pub)) + "/" + errClassOf(md.VerifySignature(a.other.Pub)) + "/" + normJSON(md.GetPayload())
+			return res
 		})
 		guard("SetPayload+Sign+Dump+Load+Verify(Envelope)", func() string {
 			e := &intoto.Envelope{}
@@ -222,12 +245,26 @@ func runOps(c *core.Ctx, a *c16Actor, dir string, rounds int, census bool) []opR
 				return errClassOf(err)
 			}
 			p := filepath.Join(dir, "signed.env")
-			e.Dump(p)
-			md, err := intoto.LoadMetadata(p)
-			if err != nil {
-				return errClassOf(err)
+			res := ""
+			for rewrite := 0; rewrite < 4; rewrite++ {
+				if rewrite > 0 {
+					if err := e.SetPayload(gen.NewLink(fmt.Sprintf("e%d-rewrite-%d", a.id, rewrite), gen.Artifacts(map[string]string{"y\n": "z"}), nil)); err != nil {
+						return res + errClassOf(err)
+					}
+					if err := e.Sign(a.key.Priv); err != nil {
+						return res + errClassOf(err)
+					}
+				}
+				if err := e.Dump(p); err != nil {
+					return res + errClassOf(err)
+				}
+				md, err := intoto.LoadMetadata(p)
+				if err != nil {
+					return res + errClassOf(err)
+				}
+				res += errClassOf(md.VerifySignature(a.key.Pub)) + "/" + normJSON(md.GetPayload()) + ";"
 			}
-			return errClassOf(md.VerifySignature(a.key.Pub)) + "/" + normJSON(md.GetPayload())
+			return res
 		})
 		guard("InTotoRun", func() string {
 			md, err := intoto.InTotoRun("step", tree, []string{tree}, []string{tree}, []string{helper, "fsop", "multi", "create", fmt.Sprintf("made-in-round-%d", round), "content\r\n", "--", "say", "hello"}, a.key.Priv, []string{"sha256"}, nil, strip, true, false, a.id%2 == 1)
@@ -567,7 +604,7 @@ func init() {
 	core.Register(&core.Property{
 		ID:    "C16",
 		Level: "exploration",
-		Rule: "rounds = fresh worker processes (quick 16, thorough 48); round k uses G in {2,4,8,16,32} goroutines and GOMAXPROCS in {2,4,16}; every goroutine owns a generated tree (half with file and directory symlinks, half with 2 MiB CRLF files), keys, a chain directory and metadata files, and runs 1 (quick) / 3 (thorough) times the list LoadMetadata of layout and links (first library operation of the process: cold caches), RecordArtifacts with and without normalisation, Metablock Sign/Dump/Load/Verify, Envelope SetPayload/Sign/Dump/Load/Verify, InTotoRun (vhelper), InTotoRecordStart/Stop, InTotoMatchProducts, InTotoVerify (no inspections; layout with its own intermediate CA; the caller's list of additional intermediates is one read-only slice with spare capacity shared by all goroutines), InTotoVerifyWithDirectory (own run dir, globally unique inspection name), SubstituteParameters; then the same lists are executed sequentially on identical copies of the data and compared result by result. Even shards run the -race build with GORACE=halt_on_error=0 log_path=...: report blocks are counted from the log files and attributed by their in_toto frames; the hook handler there only yields. Odd shards run the normal build in census mode: hook events (record_reset / record_symlink) are logged with their owner, the evidence lists the distinct interleavings (windows of 12 events) and the maximum number of calls in flight. Hang monitor in both builds: a goroutine that shares nothing with the actors samples the CPU time of the process; a round whose process consumes no CPU for 45 s while calls are outstanding is reported (calls that never return) with the system call every thread is blocked in. " +
+		Rule: "rounds = fresh worker processes (quick 16, thorough 48); round k uses G in {2,4,8,16,32} goroutines and GOMAXPROCS in {2,4,16}; every goroutine owns a generated tree (half with file and directory symlinks, half with 2 MiB CRLF files), keys, a chain directory and metadata files, and runs 1 (quick) / 3 (thorough) times the list LoadMetadata of layout and links (first library operation of the process: cold caches), RecordArtifacts with and without normalisation, Metablock Sign/Dump/Load/Verify and Envelope SetPayload/Sign/Dump/Load/Verify with the file rewritten four times under the same base name in every goroutine's own directory, InTotoRun (vhelper), InTotoRecordStart/Stop, InTotoMatchProducts, InTotoVerify (no inspections; two stray links by unauthorized keys for the first step; layout with its own intermediate CA; the caller's list of additional intermediates is one read-only slice with spare capacity shared by all goroutines), InTotoVerifyWithDirectory (own run dir, globally unique inspection name), SubstituteParameters; then the same lists are executed sequentially on identical copies of the data and compared result by result. Even shards run the -race build with GORACE=halt_on_error=0 log_path=...: report blocks are counted from the log files and attributed by their in_toto frames; the hook handler there only yields. Odd shards run the normal build in census mode: hook events (record_reset / record_symlink) are logged with their owner, the evidence lists the distinct interleavings (windows of 12 events) and the maximum number of calls in flight. Hang monitor in both builds: a goroutine that shares nothing with the actors samples the CPU time of the process; a round whose process consumes no CPU for 45 s while calls are outstanding is reported (calls that never return) with the system call every thread is blocked in. " +
 			"non-trivial = a round with >=2 calls in flight; distinct = (mode, round, goroutine, position in its operation list) of the compared concurrent calls, plus (mode, G, GOMAXPROCS, interleaving hash) per round",
 		Assumptions: []string{"inspections of InTotoVerify without run directory use the process cwd and are excluded from 'independent data'; InTotoVerifyWithDirectory drops <inspection>.link into the shared cwd under globally unique names", "the race detector only sees races on executed paths; its silence is 'no report on these executions'"},
 		Workers: func(t string) int {
